@@ -110,6 +110,14 @@ type Model struct {
 	Flags map[string]int
 }
 
+// ModelStrict makes the model follow the property statements even where a
+// registered finding says the implementation deviates (used by probes).
+var ModelStrict bool
+
+// deviates reports whether the implementation is known to deviate from the
+// specified behaviour for a registered finding that is not repaired.
+func deviates(key string) bool { return !ModelStrict && FindingStatus(key) != "fixed" }
+
 func NewModel(era Era) *Model {
 	return &Model{Era: era, H: era.Pegnet, Bal: map[string]*Bal{}, Rates: map[uint32]map[int]uint64{},
 		RateRows: map[uint32]map[string]uint64{}, Hist: map[string]*HistRec{}, holding: map[uint32][]*held{},
@@ -403,12 +411,23 @@ func (m *Model) Step(blk *Block, obs Observer) {
 		if err == nil {
 			for _, en := range blk.SPR {
 				if len(en.ExtIDs) < 2 {
-					if FindingStatus("C08/spr-extids") != "fixed" {
+					if deviates("C08/spr-extids") {
 						m.Unspec = append(m.Unspec, "C08/spr-extids")
 					}
 					continue
 				}
 				st := hex.EncodeToString(en.ExtIDs[1])
+				// S(C11): from the signature era on, a record counts only when it is signed
+				// by the key of the top holder it names (RCD-1 hash of the public key)
+				if m.sprVersion(h) >= 6 && len(en.ExtIDs) >= 3 && len(en.ExtIDs[2]) == 96 {
+					rcd := append([]byte{0x01}, en.ExtIDs[2][:32]...)
+					if bound := sha256d(rcd); hex.EncodeToString(bound[:]) != st {
+						m.Flags["spr-unbound"]++
+						if !deviates("C11/spr-unbound-staker") {
+							continue
+						}
+					}
+				}
 				if amb[st] {
 					m.Unspec = append(m.Unspec, "tie at rank 100 of the PEG rich list")
 				}
@@ -459,7 +478,7 @@ func (m *Model) Step(blk *Block, obs Observer) {
 				// S(C12): no rates for the block. The implementation additionally
 				// stops processing the block (finding C11/band-early-return).
 				m.Flags["band-norates"]++
-				if FindingStatus("C11/band-early-return") != "fixed" {
+				if deviates("C11/band-early-return") {
 					m.Unspec = append(m.Unspec, "C11/band-early-return")
 				}
 			}
@@ -734,7 +753,7 @@ func (m *Model) holderPayout(h uint32, rated bool, obs Observer) {
 					continue
 				}
 				// before 2.0.2 a holder of an unpriced asset makes the block fail
-				if FindingStatus("C08/snapshot-norates") != "fixed" {
+				if deviates("C08/snapshot-norates") {
 					m.Unspec = append(m.Unspec, "C08/snapshot-norates")
 				}
 				return
@@ -826,7 +845,7 @@ func (m *Model) executeHolding(h uint32, obs Observer) {
 	pip10 := h >= e.PIP10
 	if pip10 {
 		avgs = m.Averages(from)
-		if m.unratedInWindow(from) && FindingStatus("C09/avg-window") != "fixed" {
+		if m.unratedInWindow(from) && deviates("C09/avg-window") {
 			m.Unspec = append(m.Unspec, "C09/avg-window")
 		}
 	}
@@ -959,7 +978,7 @@ func (m *Model) executeHolding(h uint32, obs Observer) {
 				}
 			}
 			legacyBank := h >= e.ConvLimit && h < e.V20
-			if legacyBank && hasPegReq && mixed && FindingStatus("C16/mixed-peg-batch") != "fixed" {
+			if legacyBank && hasPegReq && mixed && deviates("C16/mixed-peg-batch") {
 				m.Unspec = append(m.Unspec, "C16/mixed-peg-batch")
 			}
 			m.executed[hb.hash] = true
@@ -1108,7 +1127,7 @@ func (m *Model) applyTxBlock(h uint32, blk *Block, obs Observer) {
 		}
 		if _, seen := m.Hist[hash]; seen {
 			m.Flags["dup-unexecuted"]++
-			if FindingStatus("C08/dup-history") != "fixed" {
+			if deviates("C08/dup-history") {
 				m.Unspec = append(m.Unspec, "C08/dup-history")
 			}
 			continue
